@@ -71,8 +71,9 @@ type ExprObject struct {
 }
 
 type ObjectKeyValue struct {
-	Key   string
-	Value Expr
+	Key      string
+	Value    Expr
+	KeyToken Token // the key as written: a string literal (escapes are processed when evaluated) or a name
 }
 
 type ExprUnary struct {
